@@ -249,7 +249,7 @@ def mLowOut (a : MArg) (o : Mailbox.Output) (l : Lo) : RLo :=
   | .T_mailbox_done, _ => tMailboxDone l
   | _, _ => (l, some .unmodelled)
 
-/-- Mailbox inputs `add_message`, `close`, `connected`, `got_mailbox`, `rx_closed` -/
+/-- Mailbox inputs `add_message`, `close`, `connected`, `lost`, `got_mailbox`, `rx_closed` -/
 def mLow (i : Mailbox.Input) (a : MArg) (l : Lo) : RLo :=
   match Mailbox.table l.mbox i with
   | none => (l, some .noTransition)
@@ -529,6 +529,7 @@ def wsMessage (C : Crypto) (cfg : Cfg) (f : Frame) (s : St) : R :=
 
 inductive Ev where
   | connected                 -- `RC.ws_open` → `M.connected()`
+  | lost                      -- `RC.ws_close` → `M.lost()` (the connection dropped; `_processed` lives on)
   | claimed                   -- `N.rx_claimed` → `M.got_mailbox(mailbox)`
   | code (pw : Bytes)         -- Code machine: `B.got_code(code)` then `K.got_code(code)`
   | send (pt : Bytes)         -- application `send_message`
@@ -541,6 +542,7 @@ inductive Ev where
 /-- one event; the `Option Err` is the exception that escapes to the caller -/
 def step (C : Crypto) (cfg : Cfg) (s : St) : Ev → R
   | .connected => liftLo (mLow .connected .none) s
+  | .lost => liftLo (mLow .lost .none) s
   | .claimed => liftLo (mLow .got_mailbox .none) s
   | .code pw =>
     match bossInput C cfg .got_code .none s with
@@ -629,7 +631,7 @@ of their UTF-8; bodies as abstract descriptors, resolved with the model's own ke
 
 ```
 new <i> <sidehex> <versionshex>         -> ok
-<i> connected | claimed | close | mclosed | tclosed
+<i> connected | lost | claimed | close | mclosed | tclosed
 <i> code <pwhex> | send <pthex>
 <i> rx <sidehex> <phasehex> S <j> <sealsidehex> <sealphasehex> <pthex>   body = sealing by the holder of client j's key
 <i> rx <sidehex> <phasehex> X <n> <sealsidehex> <sealphasehex> <pthex>   body = sealing under a foreign key n
@@ -712,6 +714,7 @@ def readBody (d : DrvSt) (i : Nat) : List String → Option Bytes
 
 def readEv (d : DrvSt) (i : Nat) : List String → Option Ev
   | ["connected"] => some .connected
+  | ["lost"] => some .lost
   | ["claimed"] => some .claimed
   | ["close"] => some .close
   | ["mclosed"] => some .mclosed
